@@ -143,7 +143,7 @@ def numeric(kw, word, maximum, attr, values=None, hex_ok=None, prefix=''):
 
 
 V4NET = {0: '0.0.0.0', 1: '128.0.0.0', 8: '10.0.0.0', 24: '10.0.0.0', 31: '10.0.0.2', 32: '10.0.0.1'}
-V6NET = {0: '::', 1: '8000::', 8: '2000::', 24: '2001:d00::', 31: '2001:db8::', 32: '2001:db8::', 33: '2001:db8:8000::', 64: '2001:db8:0:1::',
+V6NET = {0: '::', 1: '8000::', 8: '2000::', 24: '2001:d00::', 31: '2001:db8::', 32: '2001:db8::', 33: '2001:db8:8000::', 48: '2001:db8:1::', 64: '2001:db8:0:1::',
          127: '2001:db8::2', 128: '2001:db8::1'}
 
 
@@ -339,7 +339,8 @@ def nlri_qualifier_devs(p=''):
     D = Dev
     PI = p + 'path-information'
     for v in (0, 1, P16 - 1, P16, P32 - 2, P32 - 1):
-        out.append(D(PI, blabel(v), f'path-information {v}', 'ok', set_field('pid', v)))
+        # the documented form is the dotted one (`path-information <ipv4 formated number>`); the plain number is an alternative syntax
+        out.append(D(PI, blabel(v), f'path-information {v}', 'either', set_field('pid', v)))
     for v in (-1, P32, P64):
         out.append(D(PI, blabel(v), f'path-information {v}', 'bad'))
     out += [D(PI, 'dotted=0.0.0.1', 'path-information 0.0.0.1', 'ok', set_field('pid', 1)), D(PI, 'dotted=max', 'path-information 255.255.255.255', 'ok', set_field('pid', P32 - 1)),
@@ -367,7 +368,8 @@ def label_devs(p=''):
     labs9 = tuple(range(16, 25))
     out.append(D(LB, 'n=9', 'label [ ' + ' '.join(map(str, labs9)) + ' ]', 'ok', set_field('labels', labs9)))
     for n in (10, 255, 256, 1000):
-        out.append(D(LB, f'n={n}', 'label [ ' + ' '.join(str(16 + i) for i in range(n)) + ' ]', 'bad', long=n >= 255))
+        # n=10 is too much for the /24 of the base definition only: not combined with another prefix
+        out.append(D(LB, f'n={n}', 'label [ ' + ' '.join(str(16 + i) for i in range(n)) + ' ]', 'bad', long=n >= 255, kws=[LB, p + 'prefix'] if n == 10 else None))
     return out
 
 
@@ -493,9 +495,9 @@ def _static4():
 def _static6():
     keep_attr = {'med', 'as-path', 'local-preference', 'community', 'large-community', 'aigp', 'originator-id'}
     attrs = [d for d in attribute_devs() if d.kw in keep_attr and not d.long and d.cls != 'either' and (d.cls == 'ok' or d.bnd in ('2^32', '2^64', 'asn=2^32', '2^16:1', '1:2^16', '2^32:1:1', 'missing-value', 'octet=256'))]
-    devs = prefix_devs('route', 2) + nexthop_devs(2) + [d for d in label_devs() if d.bnd in ('2^20-1', '2^20', 'n=2', 'n=9', 'n=10')] + \
+    devs = prefix_devs('route', 2) + nexthop_devs(2) + [d for d in label_devs() if d.bnd in ('2^20-1', '2^20', 'n=2')] + \
         [d for d in rd_devs() if d.bnd in ('as4:plain', 'no-colon', 'ip:2^16', 'without-label')] + attrs + [d for d in nlri_qualifier_devs() if d.bnd in ('2^32-1', '2^32')]
-    return Grammar('route6', [('prefix', 'route 2001:db8::/32'), ('next-hop', 'next-hop 2001:db8:ffff::1')], lambda: new_R(2, ('2001:db8::', 32), '2001:db8:ffff::1'), devs,
+    return Grammar('route6', [('prefix', 'route 2001:db8:1::/48'), ('next-hop', 'next-hop 2001:db8:ffff::1')], lambda: new_R(2, ('2001:db8:1::', 48), '2001:db8:ffff::1'), devs,
                    forms=('flat', 'nested'))
 
 
@@ -504,7 +506,8 @@ def _attributes():
 
     def nl(*ps):
         return set_field('prefixes', list(ps))
-    devs = [d for d in attribute_devs('') + nlri_qualifier_devs('') + nexthop_devs(1) + rd_devs() if not d.long or d.bnd in ('n=255', 'n=256')] + [
+    # a keyword without its value would take the `nlri` word for it: only where that must be refused
+    devs = [d for d in attribute_devs('') + nlri_qualifier_devs('') + nexthop_devs(1) + rd_devs() if (not d.long or d.bnd in ('n=255', 'n=256')) and not (d.tail and d.cls == 'either')] + [
         D('attributes.nlri', 'n=0', 'nlri', 'either', skip('all'), seg='nlri'), D('attributes.nlri', 'missing', None, 'either', skip('all'), seg='nlri'),
         D('attributes.nlri', 'n=1', 'nlri 10.0.0.0/24', 'ok', nl(('10.0.0.0', 24)), seg='nlri'),
         D('attributes.nlri', 'n=3', 'nlri 10.0.0.0/24 10.0.1.0/24 10.0.2.0/32', 'ok', nl(('10.0.0.0', 24), ('10.0.1.0', 24), ('10.0.2.0', 32)), seg='nlri'),
@@ -562,6 +565,10 @@ def _flow():
 
     def pfx(t, addr, mask, afi=1):
         def eff(R):
+            R.setdefault('afis', {})[t] = afi
+            if t == 2 and 1 not in R['afis'] and 1 in R['comps']:
+                R['afis'][1] = 1   # the base destination is IPv4
+            R['mixed'] = len(set(R['afis'].values())) > 1
             R['afi'] = afi
             R['comps'][t] = (mask, 0, ipaddress.ip_address(addr).packed[: (mask + 7) // 8].hex())
         return eff
@@ -692,7 +699,7 @@ def grammars():
         _G = {g.name: g for g in (
             _static4(), _static6(), _attributes(), _flow(), _vpls(),
             _family('fam4u', 'ipv4 unicast', 1, ('10.0.0.0', 24), '10.255.0.1'),
-            _family('fam6u', 'ipv6 unicast', 2, ('2001:db8::', 32), '2001:db8:ffff::1'),
+            _family('fam6u', 'ipv6 unicast', 2, ('2001:db8:1::', 48), '2001:db8:ffff::1'),
             _family('fam4l', 'ipv4 nlri-mpls', 1, ('10.0.0.0', 24), '10.255.0.1', [('label', 'label 3')], qual=('label',)),
             _family('fam4v', 'ipv4 mpls-vpn', 1, ('10.0.0.0', 24), '10.255.0.1', [('label', 'label 3'), ('rd', 'rd 65000:1')], qual=('rd',)),
         )}
